@@ -368,6 +368,44 @@ class Money(object):
     def __lt__(self, o): return self.cents < o.cents if isinstance(o, Money) else NotImplemented
 
 
+class Odd(object):
+    """objects whose == and != are not the identity-respecting, bool-returning, effect-free ones:
+       nan: equal to nothing, not even itself;  sym: == builds an expression object (like symbolic algebra, array libraries);
+       audit: every comparison is counted on the object"""
+
+    def __init__(self, kind, label="x"):
+        self.kind, self.label, self.compared = kind, label, 0
+
+    def __repr__(self): return "Odd(%s,%s)" % (self.kind, self.label)
+    def __hash__(self): return 7
+
+    def _cmp(self, op, other, same, differ):
+        if self.kind == "nan":
+            return differ
+        if self.kind == "sym":
+            return Odd("sym", "(%s %s %s)" % (self.label, op, getattr(other, "label", repr(other))))
+        self.compared += 1
+        return same if other is self else differ
+
+    def __eq__(self, other): return self._cmp("==", other, True, False)
+    def __ne__(self, other): return self._cmp("!=", other, False, True)
+    def __lt__(self, other): return self._cmp("<", other, False, False)
+
+
+class Recorder(object):
+    """keeps the keyword arguments it is given in the order it is given them"""
+
+    def __init__(self): self.rows = []
+
+    def record(self, *args, **fields):
+        self.rows.append((len(args), list(fields.items())))
+        return tuple(fields)
+
+    def __call__(self, **fields):
+        self.rows.append(list(fields))
+        return len(self.rows)
+
+
 SUBCLASSED = {"myint": MyInt, "myfloat": MyFloat, "mystr": MyStr, "mytuple": MyTuple, "myfset": MyFset}
 
 SHAPE_VARIANTS = ("bag", "row", "gate", "tally", "bare")
@@ -504,6 +542,12 @@ def build(spec, env):
         return [mk_value(x, env) for x in spec[1]]
     if k == "dict":
         return {mk_value(a, env): mk_value(b, env) for a, b in spec[1]}
+    if k == "odict":
+        return collections.OrderedDict((mk_value(a, env), mk_value(b, env)) for a, b in spec[1])
+    if k == "odd":
+        return Odd(spec[1], spec[2])
+    if k == "recorder":
+        return Recorder()
     if k == "set":
         return {mk_value(x, env) for x in spec[1]}
     if k == "bytearray":
@@ -592,8 +636,8 @@ def snap(o, env, memo=None, depth=0):
             return (t.__name__,) + extra + tuple(rec(x) for x in o)
         if t in (set, frozenset):
             return (t.__name__,) + tuple(sorted((rec(x) for x in o), key=repr))
-        if t is dict:
-            return ("dict",) + tuple((rec(a), rec(b)) for a, b in o.items())       # insertion order is part of the state
+        if t in (dict, collections.OrderedDict):
+            return (t.__name__,) + tuple((rec(a), rec(b)) for a, b in o.items())       # insertion order is part of the state
         if t is bytearray:
             return ("bytearray", bytes(o))
         if t is type(gen_fn((), None, None)):
@@ -613,7 +657,7 @@ def snap(o, env, memo=None, depth=0):
             except (OSError, TypeError):
                 disk = None
             return ("file", type(o).__name__, st, disk)
-        if isinstance(o, (Vec, CM, Seq, Plain)):
+        if isinstance(o, (Vec, CM, Seq, Plain, Odd, Recorder)):
             return (t.__name__,) + tuple(sorted(((rec(k), rec(v)) for k, v in vars(o).items()), key=repr))
         if t in SUBCLASSED.values():
             base = [b for b in (int, float, str, tuple, frozenset) if isinstance(o, b)][0]
@@ -1216,6 +1260,8 @@ def check_builtin_classes(ctx):
 
 def type_tag(twin_obj):
     tn = type(twin_obj).__name__
+    if tn in ("Odd", "Recorder", "OrderedDict"):
+        return tn
     if tn in ("list", "dict", "set", "bytearray", "deque", "Vec", "CM", "Seq", "Plain", "generator", "MyInt", "MyFloat", "MyStr", "MyTuple", "MyFset", "Color", "Money"):
         return tn
     if is_shape(twin_obj):
@@ -1404,7 +1450,7 @@ def gen_elem(r, depth):
 
 
 KINDS = ["list", "list", "dict", "dict", "set", "bytearray", "deque", "listiter", "dictiter", "gen", "file", "file", "vec", "vec", "vec",
-         "cm", "cm", "seq", "plain", "family", "family", "family", "myint", "myint", "myfloat", "mystr", "mytuple", "myfset", "color", "money"]
+         "cm", "cm", "seq", "plain", "family", "family", "family", "myint", "myint", "myfloat", "mystr", "mytuple", "myfset", "color", "money", "odict", "odd", "odd", "recorder"]
 
 
 def gen_target(r, kind, depth=1):
@@ -1441,6 +1487,12 @@ def gen_target(r, kind, depth=1):
         return ["plain", gen_elem(r, depth), imm(gen_imm(r))]
     if kind == "family":
         return gen_family(r)
+    if kind == "odict":
+        return ["odict", [[imm(gen_imm(r, 1, True)), gen_elem(r, 0)] for _ in range(r.choice([0, 1, 2, 3]))]]
+    if kind == "odd":
+        return ["multi", [["odd", r.choice(["nan", "sym", "audit"]), r.choice(["a", "b"])] for _ in range(r.choice([1, 2, 2]))]]
+    if kind == "recorder":
+        return ["recorder"]
     if kind == "myint":
         return ["myint", imm(r.choice([0, 1, 3, -2, 7, 10, 40]))]
     if kind == "myfloat":
@@ -1564,7 +1616,25 @@ def gen_op(r, side, i):
             lambda: ["iter", i], lambda: ["len", i], lambda: ["func", i, r.choice(["sorted", "sum", "min", "max", "reversed", "tuple", "set", "enumerate", "join", "bjoin", "unpack2"])],
             lambda: ["buffiter", i, r.choice([1, 2, 3, 10]), r.choice([1, 2, 3]), r.choice([1, 2, 5, 1000])],
         ])()
-    if T is dict:
+    if isinstance(o, Odd):
+        same, any_slot = {"slot": i}, {"slot": r.randrange(len(side.slots))}
+        return r.choice([
+            lambda: ["cmp", i, "eq", same], lambda: ["cmp", i, "ne", same], lambda: ["cmp", i, "lt", same], lambda: ["cmp", i, "eq", same], lambda: ["cmp", i, "ne", same],
+            lambda: ["cmp", i, r.choice(["eq", "ne", "lt"]), any_slot], lambda: ["cmp", i, r.choice(["eq", "ne"]), I(v())], lambda: ["getattr", i, r.choice(["compared", "label", "kind"])],
+            lambda: ["hash", i], lambda: ["repr", i], lambda: ["bool", i], lambda: M("__eq__", same), lambda: M("__ne__", same),
+        ])()
+    if isinstance(o, Recorder):
+        names = ["zeta", "alpha", "mid", "beta", "omega", "b", "a"]
+        kws = lambda: [[n, I(v())] for n in r.sample(names, r.choice([2, 2, 3, 4]))]        # as drawn: mostly not in alphabetical order
+        return r.choice([
+            lambda: ["callm", i, "record", [I(v()) for _ in range(r.choice([0, 1]))], kws()], lambda: ["callm", i, "record", [], kws()], lambda: ["tcallm", i, "record", [], kws()],
+            lambda: ["call", i, [], kws()], lambda: ["call", i, [], kws()], lambda: ["getattr", i, "rows"], lambda: ["callm", i, "record", [], []], lambda: ["repr", i],
+        ])()
+    if T in (dict, collections.OrderedDict):
+        if r.random() < 0.2:
+            ks = r.sample(["zeta", "alpha", "mid", "beta", "omega", "b", "a"], r.choice([2, 3, 4]))
+            return r.choice([lambda: ["callm", i, "update", [], [[n, I(v())] for n in ks]], lambda: ["tcallm", i, "update", [], [[n, I(v())] for n in ks]],
+                             lambda: ["callm", i, "update", [I(((1, 2),))], [[n, I(v())] for n in ks]]])()
         return r.choice([
             lambda: M("get", pick_key(r, o)), lambda: M("get", pick_key(r, o), v()), lambda: M("pop", pick_key(r, o)), lambda: M("pop", pick_key(r, o), v()),
             lambda: M("setdefault", pick_key(r, o), v()), lambda: M("update", tuple((gen_imm(r, 1, True), v()) for _ in range(r.choice([0, 1, 2])))),
@@ -1573,8 +1643,8 @@ def gen_op(r, side, i):
             lambda: ["getitem", i, I(pick_key(r, o))], lambda: ["getitem", i, I(pick_key(r, o))], lambda: ["setitem", i, I(pick_key(r, o)), I(v())],
             lambda: ["setitem", i, I(pick_key(r, o)), {"slot": r.randrange(len(side.slots))}],
             lambda: ["delitem", i, I(pick_key(r, o))], lambda: ["contains", i, I(pick_key(r, o))], lambda: ["iter", i], lambda: ["len", i],
-            lambda: ["binop", i, "or", {"slot": r.choice(slots_of_type(side, dict))}], lambda: ["ibinop", i, "ior", {"slot": r.choice(slots_of_type(side, dict))}],
-            lambda: ["func", i, r.choice(["list", "sorted", "dict", "tuple", "set", "reversed", "max"])], lambda: ["cmp", i, "eq", {"slot": r.choice(slots_of_type(side, dict))}],
+            lambda: ["binop", i, "or", {"slot": r.choice(slots_of_type(side, T))}], lambda: ["ibinop", i, "ior", {"slot": r.choice(slots_of_type(side, T))}],
+            lambda: ["func", i, r.choice(["list", "sorted", "dict", "tuple", "set", "reversed", "max"])], lambda: ["cmp", i, "eq", {"slot": r.choice(slots_of_type(side, T))}], lambda: M("move_to_end", pick_key(r, o)),
             lambda: ["buffiter", i, r.choice([1, 2, 10]), r.choice([1, 2]), r.choice([1, 3, 1000])],
         ])()
     if T is set:
@@ -2108,6 +2178,17 @@ CORPUS = [
      "ops": [["callm", 0, "readline", [], []], ["callm", 0, "write", [I_(b"X")], []], ["callm", 0, "seek", [I_(0)], []], ["func", 0, "list"], ["with", 0, None],
              ["callm", 0, "read", [], []], ["getattr", 0, "closed"]]},
     {"cfg": "classic", "target": ["gen", [I_(1), I_(2), I_(3), I_(4)], 2, "ValueError"], "ops": [["next", 0], ["next", 0], ["next", 0], ["next", 0]]},
+    # comparing an object with itself through its proxy: non-reflexive, expression-building, counting ==
+    {"cfg": "default", "target": ["multi", [["odd", "nan", "a"], ["odd", "sym", "s"], ["odd", "audit", "c"]]],
+     "ops": [["cmp", 0, "eq", {"slot": 0}], ["cmp", 0, "ne", {"slot": 0}], ["cmp", 1, "eq", {"slot": 1}], ["cmp", 1, "ne", {"slot": 1}], ["cmp", 2, "eq", {"slot": 2}],
+             ["cmp", 2, "ne", {"slot": 2}], ["getattr", 2, "compared"], ["cmp", 2, "eq", {"slot": 0}], ["cmp", 1, "lt", {"slot": 1}]]},
+    # keyword operands arrive in the order written
+    {"cfg": "classic", "target": ["multi", [["dict", [[I_("k"), I_(0)]]], ["odict", [[I_("k"), I_(0)]]], ["recorder"]]],
+     "ops": [["callm", 0, "update", [], [["zeta", I_(1)], ["alpha", I_(2)]]], ["callm", 1, "update", [], [["zeta", I_(1)], ["alpha", I_(2)], ["mid", I_(3)]]],
+             ["tcallm", 0, "update", [], [["z", I_(4)], ["m", I_(5)]]], ["callm", 2, "record", [I_(1)], [["zeta", I_(1)], ["alpha", I_(2)]]], ["call", 2, [], [["b", I_(1)], ["a", I_(2)]]],
+             ["tcallm", 2, "record", [], [["y", I_(1)], ["x", I_(2)]]], ["func", 0, "list"], ["func", 1, "list"], ["getattr", 2, "rows"]]},
+    {"cfg": "public", "target": ["multi", [["odict", []], ["recorder"]]],
+     "ops": [["callm", 0, "update", [], [["zeta", I_(1)], ["alpha", I_(2)]]], ["callm", 1, "record", [], [["zeta", I_(1)], ["alpha", I_(2)]]], ["call", 1, [], [["b", I_(1)], ["a", I_(2)]]]]},
 ]
 
 
